@@ -62,6 +62,7 @@ func (gj *groupJob[T]) Close() error {
 	if err := gj.isCloseable(); err != nil {
 		return err
 	}
+	vhook("jclose.checked", gj)
 
 	gj.ack()
 
@@ -139,6 +140,7 @@ func (gj *resultGroupJob[T, R]) Close() error {
 	if err := gj.isCloseable(); err != nil {
 		return err
 	}
+	vhook("jclose.checked", gj)
 
 	gj.ack()
 
@@ -222,6 +224,7 @@ func (gj *errorGroupJob[T]) Close() error {
 	if err := gj.isCloseable(); err != nil {
 		return err
 	}
+	vhook("jclose.checked", gj)
 
 	gj.ack()
 
